@@ -1621,17 +1621,17 @@ func timedStreams(t *testing.T, r *mrand.Rand, w adder) {
 }
 
 // In a -race build the bulk streams run in a child process that is retried when it dies of
-// the toolchain's own fault: go1.26.8 built with -race occasionally segfaults inside
-// runtime.(*timer).maybeRunChan when a bubble goroutine selects on time.After(0) (observed
-// in about one of four runs of 5000 bubbles, with no data race reported; it does not involve
-// the code under test).  Anything else the child prints (a DATA RACE report, a panic, a test
+// the toolchain's own fault: go1.26.8 built with -race occasionally dies of a fatal SIGSEGV
+// on a runtime stack (in runtime.(*timer).maybeRunChan when a bubble goroutine selects on
+// time.After(0), in the race runtime on g0, or as an internal "ThreadSanitizer: CHECK failed") - observed in roughly one of three runs of
+// 5000 bubbles, with no data race reported; it does not involve the code under test.  Anything else the child prints (a DATA RACE report, a panic, a test
 // failure) is passed on and fails the harness.
 func timedStreamsInChild(t *testing.T, w adder) {
 	path := filepath.Join(*lib.OutDir, "c17-child.jsonl")
 	defer os.Remove(path)
 	var out []byte
 	var err error
-	for attempt := 0; attempt < 5; attempt++ {
+	for attempt := 0; attempt < 8; attempt++ {
 		os.Remove(path)
 		cmd := exec.Command(os.Args[0], "-test.run", "^TestHarness$", "-test.timeout", "0", "-test.count", "1", "-out", *lib.OutDir)
 		cmd.Env = append(os.Environ(), childEnv+"="+path)
@@ -1640,8 +1640,11 @@ func timedStreamsInChild(t *testing.T, w adder) {
 			break
 		}
 		txt := string(out)
-		if strings.Contains(txt, "SIGSEGV") && strings.Contains(txt, "runtime.(*timer).maybeRunChan") && !strings.Contains(txt, "DATA RACE") {
-			fmt.Printf("c17: child died in runtime.(*timer).maybeRunChan (toolchain fault under -race), retrying (%d)\n", attempt+1)
+		// a fatal signal on a runtime stack ("SIGSEGV: segmentation violation\nPC=..."), as opposed
+		// to a Go panic ("panic: runtime error: ... [signal SIGSEGV ...]") which is never retried
+		fatalSig := strings.HasPrefix(txt, "SIGSEGV: segmentation violation\nPC=") || strings.HasPrefix(txt, "ThreadSanitizer: CHECK failed")
+		if fatalSig && !strings.Contains(txt, "DATA RACE") && !strings.Contains(txt, "panic:") {
+			fmt.Printf("c17: child died of a fatal signal inside the Go runtime (toolchain fault under -race + synctest), retrying (%d)\n", attempt+1)
 			continue
 		}
 		break
